@@ -122,11 +122,17 @@ class EthAddr (_AddrBase):
         else:
           # Assume it's hex digits but they may not all be in two-digit
           # groupings (e.g., xx:x:x:xx:x:x). This actually comes up.
-          addr = [int(x,16) for x in addr.split(b":")]
+          addr = addr.split(b":")
+          if any(x.strip(b'0123456789abcdefABCDEF') for x in addr):
+            # int() would take things like "+1", " 1" or "0x1"
+            raise RuntimeError("Bad format for ethernet address")
+          addr = [int(x,16) for x in addr]
           if max(addr) > 0xff:
             raise RuntimeError("Bad format for ethernet address")
           addr = b''.join([b"%02x" % (x,) for x in addr])
         # We should now have 12 hex digits (xxxxxxxxxxxx).
+        if addr.strip(b'0123456789abcdefABCDEF'):
+          raise RuntimeError("Bad format for ethernet address")
         # Convert to 6 raw bytes.
         addr = bytes(int(addr[x*2:x*2+2], 16) for x in range(0,6))
       else:
